@@ -344,6 +344,20 @@ class QualitativeDiscretizer(BaseDiscretizer):
             )
             x_copy = string_discretizer.fit_transform(x_copy, y)
 
+            # checking that the provided orders of ordinal features knew all converted values
+            for feature in features_to_convert:
+                if feature in self.ordinal_features:
+                    unexpected = [
+                        value
+                        for value in string_discretizer.values_orders[feature]
+                        if value != self.str_nan
+                        and not self.values_orders[feature].contains(value)
+                    ]
+                    assert len(unexpected) == 0, (
+                        " - [QualitativeDiscretizer] Unexpected value! The ordering for values: "
+                        f"{str(list(unexpected))} of feature '{feature}' was not provided."
+                    )
+
             # updating values_orders accordingly
             self.values_orders.update(string_discretizer.values_orders)
 
